@@ -153,7 +153,10 @@ def rule_own(chk):
     region = common.loop_region(cfg, head)
     problems = []
     if any(n.kind in ("break", "return") for n in region):
-        problems.append("the scan over the messages can stop early")
+        chk.bad("C17.own", "LoggedAction.fromMessages:classification-of-own-messages", chk.where(fm, next(n.lineno for n in region if n.kind in ("break", "return"))),
+                "the scan over the messages can stop early: messages and child actions emitted after that point (e.g. a remote sub-task continued after the parent's end message) "
+                "are dropped from children / descendants / type_tree, while the parser still attaches them")
+        return
     from .. import exprs as X
     env = X.single_assignments(fm)
 
